@@ -285,6 +285,9 @@ func (d *drv) Signature(b *core.Behaviour, idx int, field string, expected, obse
 	if field != "ret" {
 		return fmt.Sprintf("%s|%s", op, field)
 	}
+	if op == "Act" {
+		return fmt.Sprintf("Act|%s|%v", b.Steps[idx].Str("kind"), observed)
+	}
 	txs := scan(b, idx)
 	path, e, o := firstDiff(expected, observed, "")
 	// report the most telling field first
